@@ -482,3 +482,93 @@ def close(a, b):
     if a is None or b is None:
         return a is None and b is None
     return math.isclose(a, b, rel_tol=1e-9, abs_tol=1e-9)
+
+
+# ---------------------------------------------------------------------------
+# string formulas started through LogicalMeter.start_formula (engine pool), then composed
+# ---------------------------------------------------------------------------
+
+METER_METRICS = [ComponentMetricId.ACTIVE_POWER, ComponentMetricId.REACTIVE_POWER]
+
+
+def meter_value(metric_idx, v):
+    """The value component streams of metric `metric_idx` carry when the ACTIVE_POWER streams carry `v`:
+    different for every metric, so that an engine wired to the wrong metric is visible."""
+    return v if metric_idx == 0 else 10.0 * v + 1.0
+
+
+def run_meter(plan, inputs, ids=(1, 2)):
+    """plan: list of (formula, metric_idx) handed to ONE LogicalMeter.start_formula in that order; every ordered
+    pair of the returned engines (i < j) is then composed with each operator of BIN and built.
+    Returns {label: [(k, value)]}, labels 's<i>' for started formulas and 'c<i>,<j>,<op>' for compositions."""
+    from frequenz.sdk.timeseries.logical_meter import LogicalMeter
+
+    outs = {}
+    with virtual_loop() as loop:
+        reg = ChannelRegistry(name="verif")
+        sub = Broadcast(name="subscriptions")
+        sub_rx = sub.new_receiver(limit=1000)
+        lm = LogicalMeter(reg, sub.new_sender())
+        started = [lm.start_formula(f, METER_METRICS[m]) for f, m in plan]
+        engines = {f"s{i}": e for i, e in enumerate(started)}
+        for i in range(len(started)):
+            for j in range(i + 1, len(started)):
+                for op in BIN:
+                    a, b = started[i], started[j]
+                    if op == "+":
+                        c = a + b
+                    elif op == "-":
+                        c = a - b
+                    elif op == "*":
+                        c = a * b
+                    elif op == "/":
+                        c = a / b
+                    elif op == "max":
+                        c = a.max(b)
+                    else:
+                        c = a.min(b)
+                    engines[f"c{i},{j},{op}"] = c.build(f"composed-{i}-{j}-{op}")
+        rxs = {k: e.new_receiver(max_size=1000) for k, e in engines.items()}
+        loop.settle()
+        reqs = []
+        while len(sub_rx):
+            reqs.append(sub_rx.consume())
+        senders = {}
+        for r in reqs:
+            key = (r.component_id, r.metric_id)
+            if key not in senders:
+                senders[key] = reg.get_or_create(Sample[Quantity], r.get_channel_name()).new_sender()
+        for k, vals in enumerate(inputs):
+            for (cid, metric), s in senders.items():
+                push(s, Sample(ts(k), Quantity(float(meter_value(METER_METRICS.index(metric), vals[cid])))))
+            loop.settle()
+        for label, rx in rxs.items():
+            o = []
+            while len(rx):
+                s = rx.consume()
+                o.append((int((s.timestamp - T0).total_seconds()), None if s.value is None else s.value.base_value))
+            outs[label] = o
+    return outs, sorted({(r.component_id, METER_METRICS.index(r.metric_id)) for r in reqs})
+
+
+def ref_meter(label, plan, vals):
+    """Reference value of engine `label` for ACTIVE_POWER inputs `vals`; None when undefined."""
+    def started(i):
+        f, m = plan[i]
+        return ref_string(f, {cid: meter_value(m, v) for cid, v in vals.items()})
+
+    if label[0] == "s":
+        return started(int(label[1:]))
+    i, j, op = label[1:].split(",")
+    a, b = started(int(i)), started(int(j))
+    if a is None or b is None:
+        return None
+    if op == "+":
+        return a + b
+    if op == "-":
+        return a - b
+    if op == "*":
+        return a * b
+    if op == "/":
+        return None if b == 0 else a / b
+    return max(a, b) if op == "max" else min(a, b)
